@@ -216,3 +216,31 @@ def c08_frozen_range_holds_none(w, v):
     if not v['sig'].startswith(('differs:', 'reference-differs:')):
         return False
     return bool(w.get('frozen_values_holding_NONE'))
+
+
+@matcher('c07_range_override_stale_member')
+def c07_range_override_stale_member(w, v):
+    """A value supplied through a multi-cell range or a name does not replace
+    a member cell that holds an input-free formula (an error constant is the
+    formula =#ERR in this library; also =2, =SUM(4,3)): that cell's own
+    function is evaluated first and wins, so the cell - and whoever reads it
+    directly - keeps the old value."""
+    parts = v['sig'].split(':')
+    if parts[0] != 'reference':
+        return False
+    if 'stale-member' in parts:
+        return bool(w.get('stale_member')) and w.get('observed') == w.get('own_value')
+    if 'downstream-of-stale-member' in parts:
+        return bool(w.get('downstream_of_stale_member'))
+    return False
+
+
+@matcher('c07_range_override_unpopulated_member')
+def c07_range_override_unpopulated_member(w, v):
+    """A value supplied through a range or name for a cell that is unpopulated
+    in the workbook (no node of its own) is not seen by other formulas that
+    read that cell directly or through an overlapping range."""
+    parts = v['sig'].split(':')
+    return parts[0] == 'reference' and \
+        'downstream-of-unpopulated-member' in parts and \
+        bool(w.get('downstream_of_unpopulated_member'))
